@@ -39,6 +39,8 @@ ASSUMPTIONS = [
   "a request's reply is 'contiguous' when no other statistics reply arrives between its parts (other message types may); only such requests must produce exactly one aggregated event; for interleaved ones only at-most-once, never-merged, never-before-the-final-part and in-order are required (of_01 documents that interleaving is unsupported)",
   "a request whose final part never arrives must not produce an aggregated event",
   "listeners may halt RawStatsReply, the aggregated events, PortStatus and FeaturesReceived (return EventHalt / True, or set event.halt) on the nexus or on the connection; the only documented effect is that an event halted on the nexus is not raised on the connection, so the connection level may then omit exactly that event; aggregation, the nexus-level events and the port view must not depend on listeners",
+  "port-status messages that arrive before a features reply (the first, or a second one during the handshake) are superseded by it: the view is the LAST features reply with the notifications that FOLLOW it applied",
+  "statistics xids cover the whole 32-bit range including 0",
   "a later request may reuse the xid (and type) of an earlier one once that one is complete; their entries must not be merged either",
   "error messages used as interleaved traffic carry no data (an error with data hit the separate, now fixed, hexdump defect recorded under C09)",
 ]
@@ -115,13 +117,25 @@ class _Con(object):
       if n > 1000:
         raise HarnessError("read loop does not drain")
 
-  def handshake(self, ports, early=(), finish="barrier"):
+  def handshake(self, ports, early=(), finish="barrier", pre=(), again=None):
+    """hello; `pre` notifications (before the features reply); features reply; `early` notifications, with
+    (again = (j, ports2)) a second features reply after the first j of them; then the answer to the barrier"""
     self.feed(sb.hello(0))
+    for reason, rec in pre:
+      self.feed(sb.port_status(0, reason, rec))
     self.feed(sb.features_reply(1, DPID, ports))
+    early = list(early)
+    if again is not None:
+      j, ports2 = again
+      for reason, rec in early[:j]:
+        self.feed(sb.port_status(0, reason, rec))
+      self.feed(sb.features_reply(2, DPID, ports2))
+      early = early[j:]
     msgs, rest = sb.split(bytes(self.sock.sent))
     bx = [x for v, t, x, b in msgs if t == sb.OFPT_BARRIER_REQUEST]
-    if len(bx) != 1:
-      raise HarnessError("expected one barrier request during the handshake, saw %r" % (bx,))
+    if len(bx) != (1 if again is None else 2):
+      raise HarnessError("unexpected barrier requests during the handshake: %r" % (bx,))
+    bx = bx[-1:]          # the barrier that belongs to the latest features reply
     for reason, rec in early:
       self.feed(sb.port_status(0, reason, rec))
     if finish == "error":
@@ -277,9 +291,19 @@ def case_ports(case, out):
     # only port-status messages can be 'early'
     while early and any(op[0] != "ps" for op in ops[:early]):
       early -= 1
+    # notifications that arrive before the features reply are superseded by it (it reports the ports as they
+    # are when it is sent); so is everything before a second features reply
+    pre = [(op[1], op[2]) for op in case.get("pre", []) if op[0] == "ps"]
+    again = case.get("again")
+    if again is not None:
+      again = (max(0, min(again[0], early)), again[1])
     ref.features(feat)
-    for op in ops[:early]:
+    for k, op in enumerate(ops[:early]):
+      if again is not None and k == again[0]:
+        ref.features(again[1])
       ref.status(op[1], op[2])
+    if again is not None and again[0] >= early:
+      ref.features(again[1])
     # listeners that (per the case) halt PortStatus / FeaturesReceived: the port view must not depend on them
     halter = _Halter(case.get("halt"))
 
@@ -292,14 +316,19 @@ def case_ports(case, out):
       c.w.nexus.addListenerByName(kind, listener("nexus", cls))
       c.con.addListenerByName(kind, listener("con", cls))
     finish = "error" if case.get("finish") == "error" else "barrier"
-    c.handshake(feat, [(op[1], op[2]) for op in ops[:early]], finish)
+    c.handshake(feat, [(op[1], op[2]) for op in ops[:early]], finish, pre, again)
+    if pre:
+      out.label("ports:%d-notifications-before-the-features-reply" % len(pre))
+    if again is not None:
+      out.label("ports:second-features-reply-during-handshake")
     out.label("ports:handshake-finished-by-" + ("barrier-unsupported-error" if finish == "error" else "barrier-reply"))
     if early:
       out.label("ports:notifications-during-handshake")
       out.label("ports:%d-notifications-during-handshake/%s" % (early, finish))
     names = list(NAMES)
     addrs = list(HWS)
-    for r in list(feat) + [op[2] for op in ops if op[0] == "ps"] + [r for op in ops if op[0] == "feat" for r in op[1]]:
+    for r in (list(feat) + [op[2] for op in ops if op[0] == "ps"] + [r for op in ops if op[0] == "feat" for r in op[1]] +
+              [rec for _, rec in pre] + (list(again[1]) if again is not None else [])):
       if r["name"] not in names:
         names.append(r["name"])
       if bytes(r["hw"]) not in addrs:
@@ -670,6 +699,18 @@ def enum_ports(tier):
         yield {"k": "ports", "feat": feat, "early": len(seq), "finish": finish, "ops": [list(x) for x in seq]}
       for seq in itertools.product(alpha, repeat=2):
         yield {"k": "ports", "feat": feat, "early": 1, "finish": finish, "ops": [list(x) for x in seq]}
+  # notifications that arrive BEFORE the features reply (they must not show: the reply supersedes them), and a second
+  # features reply during the handshake with notifications on both sides of it
+  for init in subsets:
+    feat = [_rec(n) for n in init]
+    for finish in ("barrier", "error"):
+      for pre in [(a,) for a in alpha] + list(itertools.product(alpha1, repeat=2)):
+        for seq in [()] + [(a,) for a in alpha1]:
+          yield {"k": "ports", "feat": feat, "pre": [list(x) for x in pre], "early": len(seq), "finish": finish, "ops": [list(x) for x in seq]}
+    for feat2 in subsets:
+      for seq in itertools.product(alpha, repeat=2):
+        for j in (0, 1, 2):
+          yield {"k": "ports", "feat": feat, "early": 2, "again": [j, [_rec(n) for n in feat2]], "ops": [list(x) for x in seq]}
   # listeners halting PortStatus / FeaturesReceived on the nexus and/or the connection
   for init in subsets:
     feat = [_rec(n) for n in init]
@@ -738,6 +779,15 @@ def enum_stats(tier):
                 if j < k:
                   stream.append(["p", 0])
               yield {"k": "stats", "reqs": [req, req2], "stream": stream}
+  # (a0) edge xids: 0 (a request sent with xid 0), 1, 2^31, 2^32-1 -- every strict composition of 4 entries
+  for t in ("flow", "table", "port", "queue"):
+    for xid in (0, 1, 0x80000000, 0xffffffff):
+      for k in range(1, 5):
+        for sizes in _weak_compositions(4 - k, k):
+          req = {"t": t, "xid": xid, "parts": _parts_from_sizes([x + 1 for x in sizes], 1)}
+          yield {"k": "stats", "reqs": [req], "stream": [["p", 0]] * k}
+          req2 = {"t": "port" if t != "port" else "queue", "xid": 0 if xid else 7, "parts": [[41], [42]]}
+          yield {"k": "stats", "reqs": [req, req2], "stream": [["p", 0]] * k + [["p", 1]] * 2}
   # (a') listeners that halt: every subset of the raw events of a 4-part reply halted on the nexus / on the
   #      connection, the aggregated event halted on the nexus / connection, each way of halting
   for t in ("flow", "table", "port", "queue"):
@@ -819,8 +869,14 @@ def _s_ports(draw, tier):
     else:
       ops.append(["ps", draw(st.sampled_from([0, 1, 2, 2])), draw(_s_rec())])
   early = draw(st.sampled_from([0, 0, 0, 1, 2, 3]))
-  return {"k": "ports", "feat": feat, "early": early, "finish": draw(st.sampled_from(["barrier", "error"])),
+  case = {"k": "ports", "feat": feat, "early": early, "finish": draw(st.sampled_from(["barrier", "error"])),
           "ops": ops, "halt": draw(_s_halt(["ps", "feat"]))}
+  if draw(st.integers(0, 3)) == 0:
+    case["pre"] = [["ps", draw(st.sampled_from([0, 1, 2])), draw(_s_rec())] for _ in range(draw(st.integers(1, 3)))]
+  if draw(st.integers(0, 5)) == 0:
+    nos2 = draw(st.lists(st.sampled_from(PORT_NOS), unique=True, max_size=4))
+    case["again"] = [draw(st.integers(0, 3)), [draw(_s_rec([n])) for n in nos2]]
+  return case
 
 
 @st.composite
@@ -841,6 +897,11 @@ def _s_stats(draw, tier):
       parts = [[tag]]
       tag += 1
     reqs.append({"t": t, "xid": 0x40 + r, "parts": parts})
+  if draw(st.integers(0, 3)) == 0:
+    # edge xids (distinct per request)
+    edge = draw(st.permutations([0, 1, 0x7fffffff, 0x80000000, 0xffffffff]))
+    for r, req in enumerate(reqs):
+      req["xid"] = edge[r]
   mode = draw(st.integers(0, 3))
   reuse = False
   if n > 1 and reqs[0]["t"] in LIST_TYPES and draw(st.integers(0, 5)) == 0:
